@@ -216,6 +216,8 @@ let projection prop secs =
                if starts_with 'C' t || starts_with 'E' t then Some (before '(' t) else None) log)
   | "C04" -> status @ sec "UNTOUCHED" secs @ List.map (fun t -> if t = "P" then "P" else "-") res
   | "C06" -> status @ order @ List.filter (starts_with 'C') (List.map (before '(') log) @ List.filter (starts_with 'i') res
+  | "C17" -> status @ order @ List.map (rmap_part 'd') rmap
+             @ List.filter_map (fun t -> if starts_with 'C' t || starts_with 'E' t then Some (before '>' t) else None) log
   | "C15" | "C14" | "C16" -> status @ order
   | _ -> status @ order @ rmap @ res @ log
 
@@ -260,6 +262,24 @@ let monitor_chain prop case_toks impl =
                    "a Required provider is excluded, or an included provider is neither Required/Desired/auto-desired/clustered nor has anything it produces actually received"
       | "C03strict" -> verdict (mon_C03_plan_strict c (parse_plan impl_secs))
                    "an included provider is neither Required/Desired/auto-desired/clustered nor has anything it produces actually received"
+      | "C17" ->
+        (* providers not marked Reorder keep their listed relative order (within the static and
+           within the per-invocation part; edits are absent from this stream) *)
+        let provs = c.bc_provs in
+        let listed =   (* NonFinal adjustment: the last provider not marked NonFinal goes to the end *)
+          let rec split_last = function
+            | [] -> None
+            | x :: r -> (match split_last r with
+                | Some (pre, f, post) -> Some (x :: pre, f, post)
+                | None -> if x.d_nonFinal then None else Some ([], x, r)) in
+          (match split_last provs with Some (pre, f, post) -> pre @ post @ [f] | None -> provs) in
+        let fixed = List.filter_map (fun d -> if d.d_reorder then None else Some (int_of_nat d.d_pid)) listed in
+        let side g = List.filter_map (fun t -> match String.split_on_char ':' t with
+            | [p; _; gr; _] when List.mem gr g && List.mem (int_of_string p) fixed -> Some (int_of_string p)
+            | _ -> None) (sec "ORDER" impl_secs) in
+        let keep l = List.filter (fun p -> List.mem p l) fixed in
+        let st = side ["1"; "2"] and rn = side ["3"; "4"] in
+        verdict (st = keep st && rn = keep rn) "a provider that is not marked Reorder changed its position relative to another one"
       | "C15" -> verdict (mon_C15_plan c (parse_plan impl_secs))
                    "a returned type is received by nobody above (and not ConsumptionOptional), or a wrapper overrides an un-received return from below without AllowReturnShadowing"
       | _ -> "PASS"
